@@ -721,7 +721,13 @@ func (c *Cluster) checkC13() {
 			hs := fmt.Sprintf("%x", hash[:10])
 			if prev, ok := c.frameHashes[r]; ok {
 				if prev.hash != hs {
-					c.violate("C13", "frames-identical", "frame-hash-differs", "round %d: node %d computed frame hash %s, node %d computed %s", r, n.idx, hs, prev.node, prev.hash)
+					diff := ""
+					if other := c.nodeAt(prev.node); other != nil && other.running() {
+						if of, err := other.core().Hashgraph().Store.GetFrame(r); err == nil {
+							diff = frameDiff(f, of)
+						}
+					}
+					c.violate("C13", "frames-identical", "frame-hash-differs", "round %d: node %d (ff=%v) computed frame hash %s, node %d computed %s; differing parts: %s", r, n.idx, n.ffDone, hs, prev.node, prev.hash, diff)
 					return
 				}
 			} else {
@@ -736,4 +742,88 @@ func (c *Cluster) checkC13() {
 type frameRef struct {
 	node int
 	hash string
+}
+
+// frameDiff names the parts of two frames that differ (diagnostics only).
+func frameDiff(a, b *hg.Frame) string {
+	out := ""
+	if a.Round != b.Round {
+		out += fmt.Sprintf("Round %d/%d; ", a.Round, b.Round)
+	}
+	if a.Timestamp != b.Timestamp {
+		out += fmt.Sprintf("Timestamp %d/%d; ", a.Timestamp, b.Timestamp)
+	}
+	if !sameList(pubKeysOf(a.Peers), pubKeysOf(b.Peers)) {
+		out += fmt.Sprintf("Peers %v/%v; ", shortList(pubKeysOf(a.Peers)), shortList(pubKeysOf(b.Peers)))
+	}
+	if len(a.Events) != len(b.Events) {
+		out += fmt.Sprintf("Events %d/%d; ", len(a.Events), len(b.Events))
+	} else {
+		for i := range a.Events {
+			x, y := a.Events[i], b.Events[i]
+			if x.Core.Hex() != y.Core.Hex() || x.Round != y.Round || x.LamportTimestamp != y.LamportTimestamp || x.Witness != y.Witness {
+				out += fmt.Sprintf("Event[%d] %s r%d lt%d w%v / %s r%d lt%d w%v; ", i, short(x.Core.Hex()), x.Round, x.LamportTimestamp, x.Witness, short(y.Core.Hex()), y.Round, y.LamportTimestamp, y.Witness)
+				break
+			}
+		}
+	}
+	ka, kb := []string{}, []string{}
+	for k := range a.Roots {
+		ka = append(ka, k)
+	}
+	for k := range b.Roots {
+		kb = append(kb, k)
+	}
+	sort.Strings(ka)
+	sort.Strings(kb)
+	if !sameList(ka, kb) {
+		out += fmt.Sprintf("Roots keys %v/%v; ", shortList(ka), shortList(kb))
+		for _, k := range ka {
+			if !contains(kb, k) {
+				out += fmt.Sprintf("extra root %s has %d events; ", k[len(k)-6:], len(a.Roots[k].Events))
+			}
+		}
+		for _, k := range kb {
+			if !contains(ka, k) {
+				out += fmt.Sprintf("missing root %s has %d events; ", k[len(k)-6:], len(b.Roots[k].Events))
+			}
+		}
+	} else {
+		for _, k := range ka {
+			ra, rb := a.Roots[k], b.Roots[k]
+			if len(ra.Events) != len(rb.Events) {
+				out += fmt.Sprintf("Root[%s] %d/%d events; ", k[len(k)-6:], len(ra.Events), len(rb.Events))
+				continue
+			}
+			for i := range ra.Events {
+				x, y := ra.Events[i], rb.Events[i]
+				if x.Core.Hex() != y.Core.Hex() || x.Round != y.Round || x.LamportTimestamp != y.LamportTimestamp || x.Witness != y.Witness {
+					out += fmt.Sprintf("Root[%s][%d] %s r%d lt%d w%v / %s r%d lt%d w%v; ", k[len(k)-6:], i, short(x.Core.Hex()), x.Round, x.LamportTimestamp, x.Witness, short(y.Core.Hex()), y.Round, y.LamportTimestamp, y.Witness)
+					break
+				}
+			}
+		}
+	}
+	ra, rb := []int{}, []int{}
+	for k := range a.PeerSets {
+		ra = append(ra, k)
+	}
+	for k := range b.PeerSets {
+		rb = append(rb, k)
+	}
+	sort.Ints(ra)
+	sort.Ints(rb)
+	if fmt.Sprint(ra) != fmt.Sprint(rb) {
+		out += fmt.Sprintf("PeerSets rounds %v/%v; ", ra, rb)
+	} else {
+		for _, k := range ra {
+			if !sameList(pubKeysOf(a.PeerSets[k]), pubKeysOf(b.PeerSets[k])) {
+				out += fmt.Sprintf("PeerSets[%d] differ; ", k)
+			}
+		}
+	}
+	if out == "" {
+		out = "(no structural difference found: encoding-level difference)"
+	}
+	return out
 }
